@@ -51,7 +51,9 @@ func (w *World) revokeAll(kind string, acct int) {
 
 // pwMatches is the independent check of a candidate against a stored hash.
 func pwMatches(hash, pw string) bool {
-	if hash == "" {
+	// no password longer than 72 bytes can ever have been set (hash generation
+	// refuses it), so no such value is anybody's password
+	if hash == "" || len(pw) > 72 {
 		return false
 	}
 	return bcrypt.CompareHashAndPassword([]byte(hash), []byte(pw)) == nil
